@@ -170,18 +170,24 @@ def judgeWrite (nd : Node) (ev arg : String) (now : Int) (din dout : Desc) (genR
       if (nd.generated || !nd.inherited) && !strictSorted b.tokens then
         -- label only: the duplicate is a token of the tokens file that the generator returned again
         bad := (if nd.fileDup then "active-tokens-not-distinct:file-token-regenerated" else "active-tokens-not-distinct-sorted") :: bad
-      -- the count is the lifecycler's business when it joined by itself (own join / register) without inherited tokens
+      -- the count is the lifecycler's business when it joined by itself (own join / register) without inherited tokens:
+      -- then EXACTLY the configured number. (C09's restart rules use `<`: inherited token lists longer than configured are kept.)
       if nd.joined && !nd.inherited && b.tokens.length != c.numTokens then bad := "active-token-count" :: bad
   | none =>
     if ev == "hb" && committed then bad := "heartbeat-removed-self" :: bad
   return bad
 
+/-- "healthy" for the judge: heartbeat not older than the timeout in WHOLE seconds (the code compares nanoseconds, which at
+second granularity is `<`; the judge must not be stricter than the property, so the boundary second is accepted) -/
 def healthyLenient (c : Cfg) (now : Int) (i : Inst) : Bool := decide (now - i.ts ≤ c.hbTimeout)
 
 /-- statement 6 on a CheckReady that answered ok for the first time -/
 def judgeReady (c : Cfg) (localState : String) (localTokens : String) (store : Option Desc) (now : Int) : List String := Id.run do
   let mut bad : List String := []
-  if localState != "A" then bad := "ready-not-active" :: bad
+  -- (stricter than `PC08.ready_implies_active`, which carries the guard "nobody removed the own entry": a ready answer of a
+  -- non-ACTIVE lifecycler IS what the property forbids; the label tells the `ready_without_entry_witness` situation apart)
+  let ownMissing := match store with | some d => (d.get? c.id).isNone | none => true
+  if localState != "A" then bad := (if ownMissing then "ready-not-active:own-entry-missing" else "ready-not-active") :: bad
   if localTokens == "-" then bad := "ready-without-tokens" :: bad
   if c.readinessRing then
     match store with
@@ -206,7 +212,7 @@ def doStep (s : St) (stepNo : Nat) (f : List String) : St :=
         addFeat { s with store := none, log := { idx := 1000, ev := "wipe", fault := "n", now := now.toInt?.getD 0, before := s.store, after := none, loc := "-", file := "-", ret := "ok", committed := false } :: s.log } "wipe"
       else if ev == "set" then
         match parseStore arg with
-        | some st => addFeat { s with store := st } "envset"
+        | some st => addFeat { s with store := st, log := { idx := 1000, ev := "set", fault := "n", now := now.toInt?.getD 0, before := s.store, after := st, loc := "-", file := "-", ret := "ok", committed := false } :: s.log } "envset"
         | none => fail "bad-env-store"
       else fail "bad-env-event"
     else
@@ -365,6 +371,8 @@ def judgeGlueOne (period start stop : Int) (ws : List GW) : List String × Nat :
     prev := some w.ts
   -- a refresh = a committed write that carries the current time (second resolution, one second of slack)
   let refreshes := (ws.filter fun w => w.ts ≥ w.wall - 1 && w.ms ≤ stop).map (·.ms)
+  -- the window in which the lifecycler is alive AND registered begins with its first recorded write
+  let start := match ws with | w :: _ => max start w.ms | [] => start
   let anchors := start :: refreshes
   let mut nwin : Nat := 0
   for a in anchors do
@@ -376,8 +384,8 @@ def judgeGlueOne (period start stop : Int) (ws : List GW) : List String × Nat :
       k := k + 1
   return (bad.eraseDups, nwin)
 
-def handleGlue (f : List String) : String × String × String :=
-  match f with
+def handleGlueLag (lcs : String) (lag : Nat) : String × String × String :=
+  match ["", lcs] with
   | [_name, lcs] =>
     let res := (lcs.splitOn ";").map fun l =>
       match l.splitOn "/" with
@@ -392,7 +400,16 @@ def handleGlue (f : List String) : String × String × String :=
     let bad := (res.flatMap (·.1)).eraseDups
     let nwin : Nat := res.foldl (fun acc r => acc + r.2.1) 0
     let kinds := "".intercalate (res.map (·.2.2))
-    ("-", (if bad.isEmpty then "-" else ",".intercalate bad), s!"glue=1 kinds={kinds} windows={if nwin == 0 then "0" else if nwin < 10 then "1-9" else "10+"}")
+    -- a starved harness process (scheduling delays above 400 ms) says nothing about the lifecycler's ticker
+    let overloaded := lag > 400
+    ("-", (if bad.isEmpty || (overloaded && bad == ["heartbeat-not-refreshed-in-window"]) then "-" else ",".intercalate bad),
+      s!"glue=1 kinds={kinds} windows={if nwin == 0 then "0" else if nwin < 10 then "1-9" else "10+"}" ++ (if overloaded then " overloaded=1" else ""))
+  | _ => ("bad-fields", "-", "glue=1")
+
+def handleGlue (f : List String) : String × String × String :=
+  match f with
+  | [_name, lcs] => handleGlueLag lcs 0
+  | [_name, lcs, lag] => handleGlueLag lcs (lag.toNat?.getD 0)
   | _ => ("bad-fields", "-", "glue=1")
 
 /-! ### loop stream: acceptance of the real services' CAS trace by the loop model (`C08.loopNext`)
